@@ -3,6 +3,7 @@ The constants of the codec models, filled from the regenerated facts (one record
 Used by the oracle and by the property theorems, so that both speak about the tree as it is.
 -/
 import Gotlcp.Model.CodecDtlcp
+import Gotlcp.Model.CodecEmitted
 import Gotlcp.Generated.Facts
 
 namespace Gotlcp.Model.Codec
@@ -69,3 +70,28 @@ def codesD : Codes where
   complete := Facts.dtlcp.codecCompleteChecked
 
 end Gotlcp.Model.Codec
+
+namespace Gotlcp.Model.Emitted
+open Gotlcp
+
+def paramsT : EmitParams where
+  vers := Facts.tlcp.VersionTLCP
+  randLen := Facts.tlcp.emitRandLen
+  sidLen := Facts.tlcp.emitSessionIdLen
+  suites := Facts.tlcp.preferenceOrder
+  compressionNone := Facts.tlcp.emit_compressionNone
+  sigSM2 := Facts.tlcp.emit_SM2WithSM3
+  certTypes := Facts.tlcp.emitCertTypes
+  finishedLen := Facts.tlcp.finishedVerifyLength
+
+def paramsD : EmitParams where
+  vers := Facts.dtlcp.VersionTLCP
+  randLen := Facts.dtlcp.emitRandLen
+  sidLen := Facts.dtlcp.emitSessionIdLen
+  suites := Facts.dtlcp.preferenceOrder
+  compressionNone := Facts.dtlcp.emit_compressionNone
+  sigSM2 := Facts.dtlcp.emit_SM2WithSM3
+  certTypes := Facts.dtlcp.emitCertTypes
+  finishedLen := Facts.dtlcp.finishedVerifyLength
+
+end Gotlcp.Model.Emitted
